@@ -8,6 +8,8 @@ import Ogorek.Lemmas.RepKeys
 
 namespace Ogorek
 
+variable {ρ : GoVal → GoVal} {rk : Bool}
+
 /-! ### running fragments -/
 
 /-- What a straight-line fragment of the encoder's output may do to the decoder state besides
@@ -34,51 +36,51 @@ theorem ProtoOK.frame {c : ECfg} {st st' : DState} (h : ProtoOK c st) (f : Frame
 
 /-- `bs` parses as non-STOP instructions which, from every state, run without error into a state
     related to the start by `Q` (and `Frame`). -/
-def Runs (mc : MCfg) (c : ECfg) (bs : Bytes) (Q : DState → DState → Prop) : Prop :=
+def Runs (mc : MCfg) (hook : Hook) (c : ECfg) (bs : Bytes) (Q : DState → DState → Prop) : Prop :=
   ∃ is, Parses bs is ∧ ∀ insn st, ProtoOK c st →
-    ∃ st', runFrom mc none insn is st = .ok st' ∧ Frame st st' ∧ Q st st'
+    ∃ st', runFrom mc hook insn is st = .ok st' ∧ Frame st st' ∧ Q st st'
 
-theorem Runs.weaken {mc : MCfg} {c : ECfg} {bs : Bytes} {Q Q' : DState → DState → Prop}
-    (h : Runs mc c bs Q) (hq : ∀ st st', Frame st st' → Q st st' → Q' st st') : Runs mc c bs Q' := by
+theorem Runs.weaken {mc : MCfg} {hook : Hook} {c : ECfg} {bs : Bytes} {Q Q' : DState → DState → Prop}
+    (h : Runs mc hook c bs Q) (hq : ∀ st st', Frame st st' → Q st st' → Q' st st') : Runs mc hook c bs Q' := by
   obtain ⟨is, hp, hr⟩ := h
   refine ⟨is, hp, fun insn st hpo => ?_⟩
   obtain ⟨st', e, f, q⟩ := hr insn st hpo
   exact ⟨st', e, f, hq st st' f q⟩
 
-theorem Runs.seq {mc : MCfg} {c : ECfg} {b1 b2 : Bytes} {Q1 Q2 : DState → DState → Prop}
-    (h1 : Runs mc c b1 Q1) (h2 : Runs mc c b2 Q2) :
-    Runs mc c (b1 ++ b2) (fun st st'' => ∃ st', Frame st st' ∧ Frame st' st'' ∧ Q1 st st' ∧ Q2 st' st'') := by
+theorem Runs.seq {mc : MCfg} {hook : Hook} {c : ECfg} {b1 b2 : Bytes} {Q1 Q2 : DState → DState → Prop}
+    (h1 : Runs mc hook c b1 Q1) (h2 : Runs mc hook c b2 Q2) :
+    Runs mc hook c (b1 ++ b2) (fun st st'' => ∃ st', Frame st st' ∧ Frame st' st'' ∧ Q1 st st' ∧ Q2 st' st'') := by
   obtain ⟨is1, hp1, hr1⟩ := h1
   obtain ⟨is2, hp2, hr2⟩ := h2
   refine ⟨is1 ++ is2, Parses.append hp1 hp2, fun insn st hpo => ?_⟩
   obtain ⟨st1, e1, f1, q1⟩ := hr1 insn st hpo
   obtain ⟨st2, e2, f2, q2⟩ := hr2 (insn + is1.length) st1 (hpo.frame f1)
   refine ⟨st2, ?_, f1.trans f2, st1, f1, f2, q1, q2⟩
-  rw [runFrom_append mc none is1 is2 insn st st1 e1, e2]
+  rw [runFrom_append mc hook is1 is2 insn st st1 e1, e2]
 
-theorem Runs.one {mc : MCfg} {c : ECfg} {bs : Bytes} {i : Insn} {Q : DState → DState → Prop}
+theorem Runs.one {mc : MCfg} {hook : Hook} {c : ECfg} {bs : Bytes} {i : Insn} {Q : DState → DState → Prop}
     (hp : Parses bs [i])
-    (he : ∀ pos st, ProtoOK c st → ∃ st', exec mc none i pos st = .ok st' ∧ Frame st st' ∧ Q st st') : Runs mc c bs Q := by
+    (he : ∀ pos st, ProtoOK c st → ∃ st', exec mc hook i pos st = .ok st' ∧ Frame st st' ∧ Q st st') : Runs mc hook c bs Q := by
   refine ⟨[i], hp, fun insn st hpo => ?_⟩
   obtain ⟨st', e, f, q⟩ := he (insn + 1) st hpo
   exact ⟨st', by simp [runFrom, e], f, q⟩
 
-theorem Runs.nil {mc : MCfg} {c : ECfg} : Runs mc c [] (fun st st' => st' = st) :=
+theorem Runs.nil {mc : MCfg} {hook : Hook} {c : ECfg} : Runs mc hook c [] (fun st st' => st' = st) :=
   ⟨[], Parses.nil, fun _ st _ => ⟨st, rfl, Frame.refl st, rfl⟩⟩
 
 /-- The fragment pushes exactly one value, which (with the heap it refers to) satisfies `P`. -/
-def Pushes (mc : MCfg) (c : ECfg) (bs : Bytes) (P : List HObj → GoVal → Prop) : Prop :=
-  Runs mc c bs (fun st st' => ∃ r, st'.stack = r :: st.stack ∧ P st'.heap r)
+def Pushes (mc : MCfg) (hook : Hook) (c : ECfg) (bs : Bytes) (P : List HObj → GoVal → Prop) : Prop :=
+  Runs mc hook c bs (fun st st' => ∃ r, st'.stack = r :: st.stack ∧ P st'.heap r)
 
 /-- The fragment pushes `l` values, none of them the marker (bottom to top: `rs`). -/
-def PushesN (mc : MCfg) (c : ECfg) (bs : Bytes) (l : Nat) (PL : List HObj → List GoVal → Prop) : Prop :=
-  Runs mc c bs (fun st st' => ∃ rs, st'.stack = rs.reverse ++ st.stack ∧ rs.length = l ∧
+def PushesN (mc : MCfg) (hook : Hook) (c : ECfg) (bs : Bytes) (l : Nat) (PL : List HObj → List GoVal → Prop) : Prop :=
+  Runs mc hook c bs (fun st st' => ∃ rs, st'.stack = rs.reverse ++ st.stack ∧ rs.length = l ∧
     (∀ r ∈ rs, isMark r = false) ∧ PL st'.heap rs)
 
 /-- A single instruction that just pushes `r`. -/
-theorem Pushes.one {mc : MCfg} {c : ECfg} {bs : Bytes} {i : Insn} {P : List HObj → GoVal → Prop} (r : DState → GoVal)
-    (hp : Parses bs [i]) (he : ∀ pos st, exec mc none i pos st = .ok (push st (r st))) (hP : ∀ st, P st.heap (r st)) :
-    Pushes mc c bs P :=
+theorem Pushes.one {mc : MCfg} {hook : Hook} {c : ECfg} {bs : Bytes} {i : Insn} {P : List HObj → GoVal → Prop} (r : DState → GoVal)
+    (hp : Parses bs [i]) (he : ∀ pos st, exec mc hook i pos st = .ok (push st (r st))) (hP : ∀ st, P st.heap (r st)) :
+    Pushes mc hook c bs P :=
   Runs.one hp fun pos st _ => ⟨push st (r st), he pos st, Frame.push st _, r st, rfl, hP st⟩
 
 theorem parses_nil_eq {is : List Insn} (h : Parses [] is) : is = [] := by
@@ -116,25 +118,27 @@ end Ogorek
 
 namespace Ogorek
 
+variable {ρ : GoVal → GoVal} {rk : Bool}
+
 /-! ### the encoder's composite forms -/
 
 /-- A fragment followed by one instruction whose success depends on what the fragment established. -/
-theorem Runs.snoc {mc : MCfg} {c : ECfg} {b1 b2 : Bytes} {i : Insn} {Q1 Q : DState → DState → Prop}
-    (h1 : Runs mc c b1 Q1) (hp : Parses b2 [i])
+theorem Runs.snoc {mc : MCfg} {hook : Hook} {c : ECfg} {b1 b2 : Bytes} {i : Insn} {Q1 Q : DState → DState → Prop}
+    (h1 : Runs mc hook c b1 Q1) (hp : Parses b2 [i])
     (he : ∀ pos st st', ProtoOK c st' → Frame st st' → Q1 st st' →
-      ∃ st'', exec mc none i pos st' = .ok st'' ∧ Frame st' st'' ∧ Q st st'') :
-    Runs mc c (b1 ++ b2) Q := by
+      ∃ st'', exec mc hook i pos st' = .ok st'' ∧ Frame st' st'' ∧ Q st st'') :
+    Runs mc hook c (b1 ++ b2) Q := by
   obtain ⟨is1, hp1, hr1⟩ := h1
   refine ⟨is1 ++ [i], Parses.append hp1 hp, fun insn st hpo => ?_⟩
   obtain ⟨st1, e1, f1, q1⟩ := hr1 insn st hpo
   obtain ⟨st2, e2, f2, q2⟩ := he (insn + is1.length + 1) st st1 (hpo.frame f1) f1 q1
   refine ⟨st2, ?_, f1.trans f2, q2⟩
-  rw [runFrom_append mc none is1 [i] insn st st1 e1]
+  rw [runFrom_append mc hook is1 [i] insn st st1 e1]
   simp [runFrom, e2]
 
 /-- MARK, then a fragment. -/
-theorem Runs.mark_then {mc : MCfg} {c : ECfg} {b : Bytes} {Q : DState → DState → Prop} (h : Runs mc c b Q) :
-    Runs mc c (40 :: b) (fun st st' => Q (push st .mark) st') := by
+theorem Runs.mark_then {mc : MCfg} {hook : Hook} {c : ECfg} {b : Bytes} {Q : DState → DState → Prop} (h : Runs mc hook c b Q) :
+    Runs mc hook c (40 :: b) (fun st st' => Q (push st .mark) st') := by
   obtain ⟨is, hp, hr⟩ := h
   refine ⟨.mark :: is, ?_, fun insn st hpo => ?_⟩
   · have := Parses.append (parses_op 40 .mark rfl parseArg_40) hp
@@ -153,10 +157,10 @@ theorem drop_reverse_append (rs s0 : List GoVal) : (rs.reverse ++ s0).drop rs.le
   rfl
 
 /-- `encodeTupleOf`: whatever the items push becomes one Tuple. -/
-theorem pushes_tupleOf {mc : MCfg} {c : ECfg} (l : Nat) (items : Out) (PL : List HObj → List GoVal → Prop)
+theorem pushes_tupleOf {mc : MCfg} {hook : Hook} {c : ECfg} (l : Nat) (items : Out) (PL : List HObj → List GoVal → Prop)
     (he : items.err = none) (hl0 : l = 0 → flat items = [])
-    (hi : PushesN mc c (flat items) l PL) :
-    Pushes mc c (flat (encodeTupleOf c l items)) (fun h r => ∃ rs, r = .tuple rs ∧ PL h rs) := by
+    (hi : PushesN mc hook c (flat items) l PL) :
+    Pushes mc hook c (flat (encodeTupleOf c l items)) (fun h r => ∃ rs, r = .tuple rs ∧ PL h rs) := by
   unfold encodeTupleOf
   split
   · -- TUPLE1..3
@@ -206,6 +210,8 @@ end Ogorek
 
 namespace Ogorek
 
+variable {ρ : GoVal → GoVal} {rk : Bool}
+
 /-! error-freeness of the binary forms -/
 
 @[simp] theorem emit_err (bs : Bytes) : (emit bs).err = none := rfl
@@ -248,35 +254,35 @@ theorem encodeTupleOf_err_inv {c : ECfg} (l : Nat) (items : Out) (hl : l ≠ 0) 
     · exact (seq_err_none (seq_err_none h).1).2
 
 section forms
-variable {mc : MCfg} {c : ECfg} (ip : IsPrint)
+variable {mc : MCfg} {hook : Hook} {c : ECfg} (ip : IsPrint)
 
-theorem pushes_none : Pushes mc c (flat (emit [78])) (fun _ r => r = .none) := by
+theorem pushes_none : Pushes mc hook c (flat (emit [78])) (fun _ r => r = .none) := by
   rw [flat_emit]
   exact Pushes.one (fun _ => .none) (parses_op 78 .pushNone rfl parseArg_78) (fun _ _ => rfl) (fun _ => rfl)
 
-theorem pushes_bool (b : Bool) : Pushes mc c (flat (encodeBool c b)) (fun _ r => r = .bool b) :=
+theorem pushes_bool (b : Bool) : Pushes mc hook c (flat (encodeBool c b)) (fun _ r => r = .bool b) :=
   Pushes.one (fun _ => .bool b) (parses_bool' c b) (fun _ _ => rfl) (fun _ => rfl)
 
-theorem pushes_int (i : Int) (hi : inInt64 i = true) : Pushes mc c (flat (encodeInt c i)) (fun _ r => r = .int i) :=
+theorem pushes_int (i : Int) (hi : inInt64 i = true) : Pushes mc hook c (flat (encodeInt c i)) (fun _ r => r = .int i) :=
   Pushes.one (fun _ => .int i) (parses_int c i hi) (fun _ _ => rfl) (fun _ => rfl)
 
-theorem pushes_long (i : Int) : Pushes mc c (flat (encodeLong i)) (fun _ r => ∃ id, r = .big id i) :=
+theorem pushes_long (i : Int) : Pushes mc hook c (flat (encodeLong i)) (fun _ r => ∃ id, r = .big id i) :=
   Runs.one (parses_long i) fun _ st _ =>
     ⟨push { st with nbig := st.nbig + 1 } (.big st.nbig i), rfl, ⟨rfl, rfl, [], by simp [push]⟩, .big st.nbig i, rfl, st.nbig, rfl⟩
 
-theorem pushes_float (f : F64) (hf : c.proto ≥ 1 ∨ FloatTextOK f) : Pushes mc c (flat (encodeFloat c f)) (fun _ r => r = .float f) := by
+theorem pushes_float (f : F64) (hf : c.proto ≥ 1 ∨ FloatTextOK f) : Pushes mc hook c (flat (encodeFloat c f)) (fun _ r => r = .float f) := by
   by_cases hp : c.proto ≥ 1
   · exact Pushes.one (fun _ => .float f) (parses_float_bin c f hp) (fun _ _ => rfl) (fun _ => rfl)
   · exact Pushes.one (fun _ => .float f) (parses_float_txt c f hp (hf.resolve_left hp)) (fun _ _ => rfl) (fun _ => rfl)
 
 theorem pushes_unicode (s : Bytes) (hl : s.length < 2 ^ 32) (he : (encodeUnicode c s).err = none) :
-    Pushes mc c (flat (encodeUnicode c s)) (fun _ r => r = .str s) := by
+    Pushes mc hook c (flat (encodeUnicode c s)) (fun _ r => r = .str s) := by
   by_cases hp : c.proto ≥ 1
   · exact Pushes.one (fun _ => .str s) (parses_unicode_bin c s hp hl) (fun _ _ => rfl) (fun _ => rfl)
   · exact Pushes.one (fun _ => .str s) (parses_unicode_txt c s hp he) (fun _ _ => rfl) (fun _ => rfl)
 
 theorem pushes_bytestring (hip : ip 10 = false) (s : Bytes) (hl : s.length < 2 ^ 32) :
-    Pushes mc c (flat (encodeByteString ip c s)) (fun _ r => r = if mc.cfg.su then .bytestr s else .str s) := by
+    Pushes mc hook c (flat (encodeByteString ip c s)) (fun _ r => r = if mc.cfg.su then .bytestr s else .str s) := by
   by_cases hp : c.proto ≥ 1
   · exact Pushes.one (fun _ => if mc.cfg.su then .bytestr s else .str s) (parses_bytestring_bin ip c s hp hl)
       (fun _ _ => rfl) (fun _ => rfl)
@@ -285,7 +291,7 @@ theorem pushes_bytestring (hip : ip 10 = false) (s : Bytes) (hl : s.length < 2 ^
 
 theorem pushes_string (hip : ip 10 = false) (hsu : mc.cfg.su = c.su) (s : Bytes) (hl : s.length < 2 ^ 32)
     (he : (encodeString ip c s).err = none) :
-    Pushes mc c (flat (encodeString ip c s)) (fun _ r => r = .str s) := by
+    Pushes mc hook c (flat (encodeString ip c s)) (fun _ r => r = .str s) := by
   unfold encodeString at he ⊢
   split
   · rename_i h; simp only [h, if_true] at he
@@ -295,13 +301,13 @@ theorem pushes_string (hip : ip 10 = false) (hsu : mc.cfg.su = c.su) (s : Bytes)
       rw [hsu]; cases hc : c.su
       · rfl
       · exact absurd (Or.inl hc) h
-    have := pushes_bytestring (mc := mc) (c := c) ip hip s hl
+    have := pushes_bytestring (mc := mc) (hook := hook) (c := c) ip hip s hl
     simpa [hs] using this
 
 /-- A Class: GLOBAL, or two strings and STACK_GLOBAL. -/
 theorem pushes_class (hip : ip 10 = false) (hsu : mc.cfg.su = c.su) (m n : Bytes) (hm : m.length < 2 ^ 32) (hn : n.length < 2 ^ 32)
     (he : (encodeClass ip c m n).err = none) :
-    Pushes mc c (flat (encodeClass ip c m n)) (fun _ r => r = .cls m n) := by
+    Pushes mc hook c (flat (encodeClass ip c m n)) (fun _ r => r = .cls m n) := by
   by_cases h4 : c.proto ≥ 4
   · have e : encodeClass ip c m n = encodeString ip c m +> encodeString ip c n +> emit [0x93] := by
       simp [encodeClass, h4]
@@ -309,8 +315,8 @@ theorem pushes_class (hip : ip 10 = false) (hsu : mc.cfg.su = c.su) (m n : Bytes
     obtain ⟨h12, _⟩ := seq_err_none he
     obtain ⟨h1, h2⟩ := seq_err_none h12
     rw [flat_seq _ _ h12, flat_seq _ _ h1, flat_emit]
-    have r1 := pushes_string (mc := mc) ip hip hsu m hm h1
-    have r2 := pushes_string (mc := mc) ip hip hsu n hn h2
+    have r1 := pushes_string (mc := mc) (hook := hook) ip hip hsu m hm h1
+    have r2 := pushes_string (mc := mc) (hook := hook) ip hip hsu n hn h2
     refine Runs.snoc (Runs.seq r1 r2) (parses_op 0x93 .stackGlobal rfl parseArg_147) ?_
     intro pos st st2 _ _ ⟨st1, _, _, ⟨a, ha, ea⟩, ⟨b, hb, eb⟩⟩
     subst ea; subst eb
@@ -325,8 +331,10 @@ end Ogorek
 
 namespace Ogorek
 
+variable {ρ : GoVal → GoVal} {rk : Bool}
+
 section reduce
-variable {mc : MCfg} {c : ECfg} (ip : IsPrint)
+variable {mc : MCfg} {hook : Hook} {c : ECfg} (ip : IsPrint)
 
 /-- What REDUCE makes of a class and its argument tuple. -/
 def reduceRes (proto : Nat) (m n : Bytes) (rs : List GoVal) : M GoVal :=
@@ -338,10 +346,10 @@ def reduceRes (proto : Nat) (m n : Bytes) (rs : List GoVal) : M GoVal :=
 theorem pushes_reduce (m n : Bytes) (clsOut argsOut : Out) (PL : List HObj → List GoVal → Prop)
     (R : List HObj → GoVal → Prop)
     (h1 : clsOut.err = none) (h2 : argsOut.err = none)
-    (hc : Pushes mc c (flat clsOut) (fun _ r => r = .cls m n))
-    (ha : Pushes mc c (flat argsOut) (fun h r => ∃ rs, r = .tuple rs ∧ PL h rs))
+    (hc : Pushes mc hook c (flat clsOut) (fun _ r => r = .cls m n))
+    (ha : Pushes mc hook c (flat argsOut) (fun h r => ∃ rs, r = .tuple rs ∧ PL h rs))
     (hred : ∀ st rs, ProtoOK c st → PL st.heap rs → ∃ v, reduceRes st.proto m n rs = .ok v ∧ R st.heap v) :
-    Pushes mc c (flat (clsOut +> argsOut +> emit [82])) R := by
+    Pushes mc hook c (flat (clsOut +> argsOut +> emit [82])) R := by
   have h12 : (clsOut +> argsOut).err = none := by simp [Out.seq, h1, h2]
   rw [flat_seq _ _ h12, flat_seq _ _ h1, flat_emit]
   refine Runs.snoc (Runs.seq hc ha) (parses_op 82 .reduce rfl parseArg_82) ?_
@@ -363,16 +371,18 @@ end Ogorek
 
 namespace Ogorek
 
-section bytesforms
-variable {mc : MCfg} {c : ECfg} (ip : IsPrint)
+variable {ρ : GoVal → GoVal} {rk : Bool}
 
-theorem PushesN.of_one {bs : Bytes} {P : GoVal → Prop} (h : Pushes mc c bs (fun _ r => P r)) (hm : ∀ r, P r → isMark r = false) :
-    PushesN mc c bs 1 (fun _ rs => ∃ a, rs = [a] ∧ P a) :=
+section bytesforms
+variable {mc : MCfg} {hook : Hook} {c : ECfg} (ip : IsPrint)
+
+theorem PushesN.of_one {bs : Bytes} {P : GoVal → Prop} (h : Pushes mc hook c bs (fun _ r => P r)) (hm : ∀ r, P r → isMark r = false) :
+    PushesN mc hook c bs 1 (fun _ rs => ∃ a, rs = [a] ∧ P a) :=
   Runs.weaken h fun st st' _ ⟨r, hs, hP⟩ => ⟨[r], by simpa using hs, rfl, by simpa using hm r hP, r, rfl, hP⟩
 
-theorem PushesN.of_two {b1 b2 : Bytes} {P1 P2 : GoVal → Prop} (h1 : Pushes mc c b1 (fun _ r => P1 r))
-    (h2 : Pushes mc c b2 (fun _ r => P2 r)) (hm1 : ∀ r, P1 r → isMark r = false) (hm2 : ∀ r, P2 r → isMark r = false) :
-    PushesN mc c (b1 ++ b2) 2 (fun _ rs => ∃ a b, rs = [a, b] ∧ P1 a ∧ P2 b) :=
+theorem PushesN.of_two {b1 b2 : Bytes} {P1 P2 : GoVal → Prop} (h1 : Pushes mc hook c b1 (fun _ r => P1 r))
+    (h2 : Pushes mc hook c b2 (fun _ r => P2 r)) (hm1 : ∀ r, P1 r → isMark r = false) (hm2 : ∀ r, P2 r → isMark r = false) :
+    PushesN mc hook c (b1 ++ b2) 2 (fun _ rs => ∃ a b, rs = [a, b] ∧ P1 a ∧ P2 b) :=
   Runs.weaken (Runs.seq h1 h2) fun st st' _ ⟨st1, _, _, ⟨a, ha, pa⟩, ⟨b, hb, pb⟩⟩ =>
     ⟨[a, b], by simp [hb, ha], rfl, by simp [hm1 a pa, hm2 b pb], a, b, rfl, pa, pb⟩
 
@@ -392,7 +402,7 @@ theorem latin1ToUtf8_length_le (d : Bytes) : (latin1ToUtf8 d).length ≤ 2 * d.l
 
 theorem pushes_bytes (hip : ip 10 = false) (hsu : mc.cfg.su = c.su) (s : Bytes) (hl : s.length < 2 ^ 31)
     (he : (encodeBytes ip c s).err = none) :
-    Pushes mc c (flat (encodeBytes ip c s)) (fun _ r => r = .bytes s) := by
+    Pushes mc hook c (flat (encodeBytes ip c s)) (fun _ r => r = .bytes s) := by
   by_cases h3 : c.proto ≥ 3
   · exact Pushes.one (fun _ => .bytes s) (parses_bytes_hi ip c s h3 (by omega)) (fun _ _ => rfl) (fun _ => rfl)
   · have e : encodeBytes ip c s = encodeClass ip c (sb "_codecs") (sb "encode")
@@ -404,11 +414,11 @@ theorem pushes_bytes (hip : ip 10 = false) (hsu : mc.cfg.su = c.su) (s : Bytes) 
     have hie := encodeTupleOf_err_inv 2 _ (by omega) hte
     obtain ⟨hue, hbe⟩ := seq_err_none hie
     have hul : (latin1ToUtf8 s).length < 2 ^ 32 := by have := latin1ToUtf8_length_le s; omega
-    have hu := pushes_unicode (mc := mc) (c := c) (latin1ToUtf8 s) hul hue
-    have hb := pushes_bytestring (mc := mc) (c := c) ip hip (sb "latin1") (by decide)
+    have hu := pushes_unicode (mc := mc) (hook := hook) (c := c) (latin1ToUtf8 s) hul hue
+    have hb := pushes_bytestring (mc := mc) (hook := hook) (c := c) ip hip (sb "latin1") (by decide)
     have hitems := PushesN.of_two hu hb (by intro r h; subst h; rfl) (by intro r h; subst h; split <;> rfl)
     rw [← flat_seq _ _ hue] at hitems
-    have htup := pushes_tupleOf (mc := mc) (c := c) 2 _ _ hie (by omega) hitems
+    have htup := pushes_tupleOf (mc := mc) (hook := hook) (c := c) 2 _ _ hie (by omega) hitems
     refine pushes_reduce (sb "_codecs") (sb "encode") _ _ _ _ hce hte
       (pushes_class ip hip hsu _ _ (by decide) (by decide) hce) htup ?_
     intro st rs _ ⟨a, b, e, ha, hb⟩
@@ -425,8 +435,10 @@ end Ogorek
 
 namespace Ogorek
 
+variable {ρ : GoVal → GoVal} {rk : Bool}
+
 section bytearrayform
-variable {mc : MCfg} {c : ECfg} (ip : IsPrint)
+variable {mc : MCfg} {hook : Hook} {c : ECfg} (ip : IsPrint)
 
 theorem encodeBytes_err (s : Bytes) (hp : c.proto ≥ 1) : (encodeBytes ip c s).err = none := by
   unfold encodeBytes
@@ -446,7 +458,7 @@ theorem pybuiltinModuleE_len (p : Int) : (pybuiltinModuleE p).length < 2 ^ 32 :=
 
 theorem pushes_bytearray (hip : ip 10 = false) (hsu : mc.cfg.su = c.su) (s : Bytes) (hl : s.length < 2 ^ 31)
     (he : (encodeByteArray ip c s).err = none) :
-    Pushes mc c (flat (encodeByteArray ip c s)) (fun _ r => r = .bytearray s) := by
+    Pushes mc hook c (flat (encodeByteArray ip c s)) (fun _ r => r = .bytearray s) := by
   by_cases h5 : c.proto ≥ 5
   · exact Pushes.one (fun _ => .bytearray s) (parses_bytearray_hi ip c s h5 (by omega)) (fun _ _ => rfl) (fun _ => rfl)
   · have e : encodeByteArray ip c s = encodeClass ip c (pybuiltinModuleE c.proto) (sb "bytearray")
@@ -456,8 +468,8 @@ theorem pushes_bytearray (hip : ip 10 = false) (hsu : mc.cfg.su = c.su) (s : Byt
     obtain ⟨h12, _⟩ := seq_err_none he
     obtain ⟨hce, hte⟩ := seq_err_none h12
     have hbe := encodeTupleOf_err_inv 1 _ (by omega) hte
-    have hitems := PushesN.of_one (pushes_bytes (mc := mc) ip hip hsu s hl hbe) (by intro r h; subst h; rfl)
-    have htup := pushes_tupleOf (mc := mc) (c := c) 1 _ _ hbe (by omega) hitems
+    have hitems := PushesN.of_one (pushes_bytes (mc := mc) (hook := hook) ip hip hsu s hl hbe) (by intro r h; subst h; rfl)
+    have htup := pushes_tupleOf (mc := mc) (hook := hook) (c := c) 1 _ _ hbe (by omega) hitems
     refine pushes_reduce (pybuiltinModuleE c.proto) (sb "bytearray") _ _ _ _ hce hte
       (pushes_class ip hip hsu _ _ (pybuiltinModuleE_len _) (by decide) hce) htup ?_
     intro st rs hpo ⟨a, e, ha⟩
@@ -472,6 +484,8 @@ end bytearrayform
 end Ogorek
 
 namespace Ogorek
+
+variable {ρ : GoVal → GoVal} {rk : Bool}
 
 /-! ### the values the theorem covers, and the main induction -/
 
@@ -501,60 +515,60 @@ theorem freshOver_of_B {eqf : GoVal → GoVal → Bool} : (old ks : List GoVal) 
 /-- The keys of one map / Dict literal, as the decoder's table (Dict with PyDict, builtin map without)
     will see them: acceptable as keys, coming back unchanged (`keyLike` / `mapKeyPlain`), and pairwise
     different for that table's notion of equality — so no entry replaces another. -/
-def keysOK (cfg : Cfg) (kvs : Entries) : Bool :=
+def keysOK (cfg : Cfg) (rk : Bool) (kvs : Entries) : Bool :=
   if cfg.pyDict then
-    kvs.all (fun e => keyLike cfg.su e.1 && hashable e.1) && freshOverB goEqual [] (kvs.map (·.1))
+    kvs.all (fun e => keyLike cfg.su rk e.1 && hashable e.1) && freshOverB goEqual [] (kvs.map (·.1))
   else
-    kvs.all (fun e => mapKeyPlain cfg.su e.1) && freshOverB goKeyEq [] (kvs.map (·.1))
+    kvs.all (fun e => mapKeyPlain cfg.su rk e.1) && freshOverB goKeyEq [] (kvs.map (·.1))
 
 mutual
 /-- Values built only from the types Decode itself produces, with payloads below the 4 GiB that
     the 4-byte length forms can carry, and maps / Dicts whose keys are `keysOK`. -/
-def canon (cfg : Cfg) : GoVal → Bool
+def canon (cfg : Cfg) (rk : Bool) : GoVal → Bool
   | .none | .nil | .bool _ | .float _ | .big _ _ => true
   | .int i => inInt64 i
   | .str s | .bytestr s => decide (s.length < 2 ^ 32)
   | .bytes s | .bytearray s => decide (s.length < 2 ^ 31)
   | .cls m n => decide (m.length < 2 ^ 32) && decide (n.length < 2 ^ 32)
-  | .list xs | .tuple xs => canonList cfg xs
-  | .call m n args => decide (m.length < 2 ^ 32) && decide (n.length < 2 ^ 32) && !reservedCall m n && canonList cfg args
-  | .ref p => canon cfg p
-  | .map kvs | .dict kvs => canonPairs cfg kvs && keysOK cfg kvs
+  | .list xs | .tuple xs => canonList cfg rk xs
+  | .call m n args => decide (m.length < 2 ^ 32) && decide (n.length < 2 ^ 32) && !reservedCall m n && canonList cfg rk args
+  | .ref p => canon cfg rk p
+  | .map kvs | .dict kvs => canonPairs cfg rk kvs && keysOK cfg rk kvs
   | .uint _ | .complex _ _ | .user _ | .mark | .href _ | .cycle => false
-def canonList (cfg : Cfg) : List GoVal → Bool
+def canonList (cfg : Cfg) (rk : Bool) : List GoVal → Bool
   | [] => true
-  | x :: xs => canon cfg x && canonList cfg xs
-def canonPairs (cfg : Cfg) : List (GoVal × GoVal) → Bool
+  | x :: xs => canon cfg rk x && canonList cfg rk xs
+def canonPairs (cfg : Cfg) (rk : Bool) : List (GoVal × GoVal) → Bool
   | [] => true
-  | (k, v) :: r => canon cfg k && canon cfg v && canonPairs cfg r
+  | (k, v) :: r => canon cfg rk k && canon cfg rk v && canonPairs cfg rk r
 end
 
 section dictform
-variable {mc : MCfg} {c : ECfg}
+variable {mc : MCfg} {hook : Hook} {c : ECfg}
 
-theorem goMapHashable_of_plain {su : Bool} : (k : GoVal) → mapKeyPlain su k = true → goMapHashable k = true
+theorem goMapHashable_of_plain {su : Bool} : (k : GoVal) → mapKeyPlain su rk k = true → goMapHashable k = true
   | .none, _ | .bool _, _ | .int _, _ | .float _, _ | .str _, _ | .bytes _, _ | .cls _ _, _ | .bytestr _, _ => by simp [goMapHashable]
-  | .ref p, h => by simp only [mapKeyPlain] at h; simp [goMapHashable, goMapHashable_of_plain p h]
+  | .ref p, h => by simp only [mapKeyPlain, Bool.and_eq_true] at h; simp [goMapHashable, goMapHashable_of_plain p h.2]
   | .nil, h | .uint _, h | .complex _ _, h | .bytearray _, h | .list _, h | .map _, h | .big _ _, h
   | .dict _, h | .user _, h | .mark, h | .href _, h | .cycle, h | .tuple _, h | .call _ _ _, h => by simp [mapKeyPlain] at h
 
-theorem RepList.eq_of_plain {h : List HObj} : {rs ks : List GoVal} → RepList mc h rs ks →
-    (∀ k ∈ ks, mapKeyPlain mc.cfg.su k = true) → rs = ks
+theorem RepList.eq_of_plain (hρ : rk = true → ∀ p, ρ p = .ref p) {h : List HObj} : {rs ks : List GoVal} → RepList mc ρ h rs ks →
+    (∀ k ∈ ks, mapKeyPlain mc.cfg.su rk k = true) → rs = ks
   | [], [], _, _ => rfl
   | [], _ :: _, hr, _ => by simp [RepList] at hr
   | _ :: _, [], hr, _ => by simp [RepList] at hr
   | r :: rs, k :: ks, hr, hk => by
     simp only [RepList] at hr
-    rw [Rep.eq_of_plain k hr.1 (hk k (by simp)), RepList.eq_of_plain hr.2 (fun x hx => hk x (by simp [hx]))]
+    rw [Rep.eq_of_plain hρ k hr.1 (hk k (by simp)), RepList.eq_of_plain hρ hr.2 (fun x hx => hk x (by simp [hx]))]
 
-theorem keyLikeList_of_all {su : Bool} : (kvs : Entries) → (∀ e ∈ kvs, keyLike su e.1 = true) → keyLikeList su (kvs.map (·.1)) = true
+theorem keyLikeList_of_all {su : Bool} : (kvs : Entries) → (∀ e ∈ kvs, keyLike su rk e.1 = true) → keyLikeList su rk (kvs.map (·.1)) = true
   | [], _ => rfl
   | e :: kvs, h => by
     simp only [List.map_cons, keyLikeList, Bool.and_eq_true]
     exact ⟨h e (by simp), keyLikeList_of_all kvs (fun x hx => h x (by simp [hx]))⟩
 
 /-- What DICT makes of the decoded keys and values, given that the encoded keys were `keysOK`. -/
-theorem assignAll_of_keysOK {h : List HObj} (kvs es : Entries) (hk : keysOK mc.cfg kvs = true) (hp : RepPairs mc h es kvs) :
+theorem assignAll_of_keysOK (hρ : rk = true → ∀ p, ρ p = .ref p) {h : List HObj} (kvs es : Entries) (hk : keysOK mc.cfg rk kvs = true) (hp : RepPairs mc ρ h es kvs) :
     assignAll (dictKind mc.cfg) [] (flatE es) = some es := by
   have hkeys := hp.keys
   unfold keysOK at hk
@@ -566,19 +580,19 @@ theorem assignAll_of_keysOK {h : List HObj} (kvs es : Entries) (hk : keysOK mc.c
     have hh : ∀ e ∈ es, hashable e.1 = true := by
       intro e he
       obtain ⟨x, hx, h1, h2⟩ := RepList.mem hkeys hkl e.1 (List.mem_map_of_mem he)
-      rw [h1.hashable_eq h2]
+      rw [Rep.hashable_eq hρ h1 h2]
       obtain ⟨kv, hkv, rfl⟩ := List.mem_map.mp hx
       exact (hall kv hkv).2
-    have hf := freshOver_rep (kvs.map (·.1)) (es.map (·.1)) [] [] hkeys hkl (by simp [RepList]) rfl
+    have hf := freshOver_rep hρ (kvs.map (·.1)) (es.map (·.1)) [] [] hkeys hkl (by simp [RepList]) rfl
       (freshOver_of_B [] _ hfresh)
     simpa using assignAll_dict_append es [] hh (by simpa using hf)
   · simp only [hpd, Bool.false_eq_true, if_false, Bool.and_eq_true, List.all_eq_true] at hk ⊢
     obtain ⟨hall, hfresh⟩ := hk
-    have hpl : ∀ k ∈ kvs.map (·.1), mapKeyPlain mc.cfg.su k = true := by
+    have hpl : ∀ k ∈ kvs.map (·.1), mapKeyPlain mc.cfg.su rk k = true := by
       intro k hk'
       obtain ⟨kv, hkv, rfl⟩ := List.mem_map.mp hk'
       exact hall kv hkv
-    have heq := RepList.eq_of_plain hkeys hpl
+    have heq := RepList.eq_of_plain hρ hkeys hpl
     have hh : ∀ e ∈ es, goMapHashable e.1 = true := by
       intro e he
       have : e.1 ∈ kvs.map (·.1) := by rw [← heq]; exact List.mem_map_of_mem he
@@ -586,11 +600,11 @@ theorem assignAll_of_keysOK {h : List HObj} (kvs es : Entries) (hk : keysOK mc.c
     simpa using assignAll_map_append es [] hh (by rw [heq]; simpa using freshOver_of_B [] _ hfresh)
 
 /-- `EMPTY_DICT`, or `MARK k1 v1 … DICT`. -/
-theorem pushes_dictform (kvs : Entries) (pairsOut : Out) (hk : keysOK mc.cfg kvs = true)
+theorem pushes_dictform (hρ : rk = true → ∀ p, ρ p = .ref p) (kvs : Entries) (pairsOut : Out) (hk : keysOK mc.cfg rk kvs = true)
     (he : pairsOut.err = none)
-    (hi : PushesN mc c (flat pairsOut) (flatE kvs).length (fun h rs => RepList mc h rs (flatE kvs))) :
-    Pushes mc c (flat (if c.proto ≥ 1 ∧ kvs.length = 0 then emit [125] else emit [40] +> pairsOut +> emit [100]))
-      (fun h r => ∃ id es, r = .href id ∧ h[id]? = some { kind := dictKind mc.cfg, kvs := es } ∧ RepPairs mc h es kvs) := by
+    (hi : PushesN mc hook c (flat pairsOut) (flatE kvs).length (fun h rs => RepList mc ρ h rs (flatE kvs))) :
+    Pushes mc hook c (flat (if c.proto ≥ 1 ∧ kvs.length = 0 then emit [125] else emit [40] +> pairsOut +> emit [100]))
+      (fun h r => ∃ id es, r = .href id ∧ h[id]? = some { kind := dictKind mc.cfg, kvs := es } ∧ RepPairs mc ρ h es kvs) := by
   split
   · rename_i h
     have hx : kvs = [] := List.length_eq_zero_iff.mp h.2
@@ -612,10 +626,10 @@ theorem pushes_dictform (kvs : Entries) (pairsOut : Out) (hk : keysOK mc.cfg kvs
       rw [hst]; simp only [push]
       exact splitAtMark_append (flatE es).reverse st.stack (fun r hr => hnm r (by simpa using hr))
     have heven : ¬ ((flatE es).reverse.length % 2 ≠ 0) := by simp [flatE_length]
-    have hass := assignAll_of_keysOK kvs es hk hp
+    have hass := assignAll_of_keysOK hρ kvs es hk hp
     let o : HObj := { kind := dictKind mc.cfg, kvs := es }
     refine ⟨{ st' with heap := st'.heap ++ [o], stack := .href st'.heap.length :: st.stack }, ?_,
-      ⟨rfl, rfl, [o], rfl⟩, .href st'.heap.length, rfl, st'.heap.length, es, rfl, by simp [o], RepPairs.mono mc _ _ es kvs hp⟩
+      ⟨rfl, rfl, [o], rfl⟩, .href st'.heap.length, rfl, st'.heap.length, es, rfl, by simp [o], RepPairs.mono mc ρ _ _ es kvs hp⟩
     simp only [exec, hsp, heven, if_false, List.reverse_reverse, hass, allocObj]
     rfl
 
@@ -639,22 +653,54 @@ def floatsOfPairs : List (GoVal × GoVal) → List F64
 end
 
 section main
-variable {mc : MCfg} {c : ECfg} (ip : IsPrint)
+variable {mc : MCfg} {hook : Hook} {c : ECfg} (ip : IsPrint)
 
-theorem pushes_ref (pid : GoVal) (bs : Bytes) (h : Pushes mc c bs (fun h r => Rep mc h r pid)) :
-    Pushes mc c (bs ++ [81]) (fun h r => Rep mc h r (.ref pid)) := by
+/-- `ρ p` is what the decoder leaves on the stack for `Ref{p}` under this hook, whatever the call index:
+    the Ref itself without a hook or when the hook answers nil, the hook's object otherwise; never the
+    stack marker, never an error. -/
+def HookFor (hook : Hook) (ρ : GoVal → GoVal) : Prop :=
+  (∀ p, isMark (ρ p) = false) ∧
+  match hook with
+  | none => ∀ p, ρ p = .ref p
+  | some load => ∀ idx p, load idx (.ref p) = .replace (ρ p) ∨ (load idx (.ref p) = .keep ∧ ρ p = .ref p)
+
+theorem handleRef_for (hh : HookFor hook ρ) (st : DState) (p : GoVal) :
+    ∃ st', handleRef hook st (.ref p) = .ok st' ∧ st'.stack = ρ p :: st.stack ∧ st'.heap = st.heap ∧
+      st'.memo = st.memo ∧ st'.proto = st.proto := by
+  obtain ⟨_, hh⟩ := hh
+  cases hook with
+  | none =>
+    simp only at hh
+    exact ⟨push st (.ref p), by simp [handleRef], by simp [push, hh p], rfl, rfl, rfl⟩
+  | some load =>
+    simp only at hh
+    rcases hh (({ st with calls := .ref p :: st.calls } : DState).calls.length - 1) p with h1 | ⟨h1, h2⟩
+    · refine ⟨push { st with calls := .ref p :: st.calls } (ρ p), ?_, by simp [push], rfl, rfl, rfl⟩
+      simp only [handleRef, h1]
+    · refine ⟨push { st with calls := .ref p :: st.calls } (.ref p), ?_, by simp [push, h2], rfl, rfl, rfl⟩
+      simp only [handleRef, h1]
+
+theorem pushes_ref (hh : HookFor hook ρ) (pid : GoVal) (bs : Bytes) (h : Pushes mc hook c bs (fun h r => Rep mc ρ h r pid)) :
+    Pushes mc hook c (bs ++ [81]) (fun h r => Rep mc ρ h r (.ref pid)) := by
   refine Runs.snoc h (parses_op 81 .binpersid rfl parseArg_81) ?_
   intro pos st st' _ _ ⟨r, hs, hr⟩
-  refine ⟨{ st' with stack := .ref r :: st.stack }, ?_, ⟨rfl, rfl, [], by simp⟩, .ref r, rfl, ?_⟩
+  obtain ⟨st2, e2, hs2, hheap, hmemo, hproto⟩ := handleRef_for hh ({ st' with stack := st.stack } : DState) r
+  refine ⟨st2, ?_, ⟨hmemo, hproto, [], by simp [hheap]⟩, ρ r, by simpa using hs2, ?_⟩
   · have hu := userOK_nm hr.not_mark
-    simp [exec, popUser, pop, hs, hu, handleRef, bind, Except.bind, pure, Except.pure, push]
-  · simp only [Rep]; exact ⟨r, rfl, hr⟩
+    simp only [exec, popUser, pop, hs, hu, bind, Except.bind, pure, Except.pure]
+    exact e2
+  · simp only [Rep]
+    rw [hheap]
+    exact ⟨r, rfl, hh.1 r, hr⟩
 
 /-- Protocol 0: `P<id>\n`. -/
-theorem pushes_persid (s : Bytes) (h : containsLF s = false) :
-    Pushes mc c (flat (emit (80 :: s ++ [10]))) (fun h r => Rep mc h r (.ref (.str s))) :=
-  Pushes.one (fun _ => .ref (.str s)) (parses_persid_txt s h) (fun _ st => by simp [exec, handleRef])
-    (fun _ => by simp only [Rep]; exact ⟨.str s, rfl, rfl⟩)
+theorem pushes_persid (hh : HookFor hook ρ) (s : Bytes) (h : containsLF s = false) :
+    Pushes mc hook c (flat (emit (80 :: s ++ [10]))) (fun h r => Rep mc ρ h r (.ref (.str s))) := by
+  refine Runs.one (parses_persid_txt s h) fun pos st _ => ?_
+  obtain ⟨st2, e2, hs2, hheap, hmemo, hproto⟩ := handleRef_for hh st (.str s)
+  refine ⟨st2, by simpa [exec] using e2, ⟨hmemo, hproto, [], by simp [hheap]⟩, ρ (.str s), hs2, ?_⟩
+  simp only [Rep]
+  exact ⟨.str s, rfl, hh.1 _, rfl⟩
 
 /-- What the theorem asks of the floats of a value: nothing from protocol 1 on. -/
 def FloatsOK (c : ECfg) (fs : List F64) : Prop := ∀ f ∈ fs, c.proto ≥ 1 ∨ FloatTextOK f
@@ -665,25 +711,25 @@ theorem FloatsOK.right {c : ECfg} {a b : List F64} (h : FloatsOK c (a ++ b)) : F
   fun f hf => h f (List.mem_append_right _ hf)
 
 mutual
-theorem rt_val (hip : ip 10 = false) (hsu : mc.cfg.su = c.su) (hlr : mc.listRef = false) :
-    (v : GoVal) → canon mc.cfg v = true → FloatsOK c (floatsOf v) → (enc ip c v).err = none →
-    Pushes mc c (flat (enc ip c v)) (fun h r => Rep mc h r v)
-  | .none, _, _, _ => by simpa [enc, Rep] using pushes_none (mc := mc) (c := c)
-  | .nil, _, _, _ => by simpa [enc, Rep] using pushes_none (mc := mc) (c := c)
-  | .bool b, _, _, _ => by simpa [enc, Rep] using pushes_bool (mc := mc) (c := c) b
-  | .int i, hc, _, _ => by simpa [enc, Rep] using pushes_int (mc := mc) (c := c) i (by simpa [canon] using hc)
-  | .big _ i, _, _, _ => by simpa [enc, Rep] using pushes_long (mc := mc) (c := c) i
-  | .float f, _, hf, _ => by simpa [enc, Rep] using pushes_float (mc := mc) (c := c) f (hf f (by simp [floatsOf]))
+theorem rt_val (hh : HookFor hook ρ) (hρ : rk = true → ∀ p, ρ p = .ref p) (hip : ip 10 = false) (hsu : mc.cfg.su = c.su) (hlr : mc.listRef = false) :
+    (v : GoVal) → canon mc.cfg rk v = true → FloatsOK c (floatsOf v) → (enc ip c v).err = none →
+    Pushes mc hook c (flat (enc ip c v)) (fun h r => Rep mc ρ h r v)
+  | .none, _, _, _ => by simpa [enc, Rep] using pushes_none (mc := mc) (hook := hook) (c := c)
+  | .nil, _, _, _ => by simpa [enc, Rep] using pushes_none (mc := mc) (hook := hook) (c := c)
+  | .bool b, _, _, _ => by simpa [enc, Rep] using pushes_bool (mc := mc) (hook := hook) (c := c) b
+  | .int i, hc, _, _ => by simpa [enc, Rep] using pushes_int (mc := mc) (hook := hook) (c := c) i (by simpa [canon] using hc)
+  | .big _ i, _, _, _ => by simpa [enc, Rep] using pushes_long (mc := mc) (hook := hook) (c := c) i
+  | .float f, _, hf, _ => by simpa [enc, Rep] using pushes_float (mc := mc) (hook := hook) (c := c) f (hf f (by simp [floatsOf]))
   | .str s, hc, _, he => by
-    simpa [enc, Rep] using pushes_string (mc := mc) ip hip hsu s (by simpa [canon] using hc) (by simpa [enc] using he)
-  | .bytestr s, hc, _, _ => by simpa [enc, Rep] using pushes_bytestring (mc := mc) (c := c) ip hip s (by simpa [canon] using hc)
+    simpa [enc, Rep] using pushes_string (mc := mc) (hook := hook) ip hip hsu s (by simpa [canon] using hc) (by simpa [enc] using he)
+  | .bytestr s, hc, _, _ => by simpa [enc, Rep] using pushes_bytestring (mc := mc) (hook := hook) (c := c) ip hip s (by simpa [canon] using hc)
   | .bytes s, hc, _, he => by
-    simpa [enc, Rep] using pushes_bytes (mc := mc) ip hip hsu s (by simpa [canon] using hc) (by simpa [enc] using he)
+    simpa [enc, Rep] using pushes_bytes (mc := mc) (hook := hook) ip hip hsu s (by simpa [canon] using hc) (by simpa [enc] using he)
   | .bytearray s, hc, _, he => by
-    simpa [enc, Rep] using pushes_bytearray (mc := mc) ip hip hsu s (by simpa [canon] using hc) (by simpa [enc] using he)
+    simpa [enc, Rep] using pushes_bytearray (mc := mc) (hook := hook) ip hip hsu s (by simpa [canon] using hc) (by simpa [enc] using he)
   | .cls m n, hc, _, he => by
     simp only [canon, Bool.and_eq_true, decide_eq_true_eq] at hc
-    simpa [enc, Rep] using pushes_class (mc := mc) ip hip hsu m n hc.1 hc.2 (by simpa [enc] using he)
+    simpa [enc, Rep] using pushes_class (mc := mc) (hook := hook) ip hip hsu m n hc.1 hc.2 (by simpa [enc] using he)
   | .list xs, hc, hf, he => by
     simp only [canon] at hc
     simp only [floatsOf] at hf
@@ -702,7 +748,7 @@ theorem rt_val (hip : ip 10 = false) (hsu : mc.cfg.su = c.su) (hlr : mc.listRef 
       obtain ⟨h12, _⟩ := seq_err_none he
       obtain ⟨_, h2⟩ := seq_err_none h12
       rw [flat_seq _ _ h12, flat_seq _ _ rfl, flat_emit, flat_emit]
-      have hm := Runs.mark_then (rt_list hip hsu hlr xs hc hf h2)
+      have hm := Runs.mark_then (rt_list hh hρ hip hsu hlr xs hc hf h2)
       refine Runs.snoc (by simpa using hm) (parses_op 108 .list rfl parseArg_108) ?_
       intro pos st st' _ _ ⟨rs, hst, _, hnm, hPL⟩
       refine ⟨{ st' with stack := .list rs :: st.stack }, ?_, ⟨rfl, rfl, [], by simp⟩, .list rs, rfl, ?_⟩
@@ -721,8 +767,8 @@ theorem rt_val (hip : ip 10 = false) (hsu : mc.cfg.su = c.su) (hlr : mc.listRef 
       | cons x xs' => exact encodeTupleOf_err_inv _ _ (by simp) he
     have hl0 : xs.length = 0 → flat (encList ip c xs) = [] := by
       intro h; have := List.length_eq_zero_iff.mp h; subst this; simp [encList, flat, Out.nil]
-    have := pushes_tupleOf (mc := mc) (c := c) xs.length (encList ip c xs) (fun h rs => RepList mc h rs xs) hie hl0
-      (rt_list hip hsu hlr xs hc hf hie)
+    have := pushes_tupleOf (mc := mc) (hook := hook) (c := c) xs.length (encList ip c xs) (fun h rs => RepList mc ρ h rs xs) hie hl0
+      (rt_list hh hρ hip hsu hlr xs hc hf hie)
     simpa only [Rep] using this
   | .map kvs, hc, hf, he => by
     simp only [canon, Bool.and_eq_true] at hc
@@ -735,7 +781,7 @@ theorem rt_val (hip : ip 10 = false) (hsu : mc.cfg.su = c.su) (hlr : mc.listRef 
         have : ¬ (c.proto ≥ 1 ∧ (x :: xs').length = 0) := by simp
         simp only [this, if_false] at he
         exact (seq_err_none (seq_err_none he).1).2
-    have := pushes_dictform (mc := mc) (c := c) kvs (encPairs ip c kvs) hc.2 hie (rt_pairs hip hsu hlr kvs hc.1 hf hie)
+    have := pushes_dictform (mc := mc) (hook := hook) (c := c) hρ kvs (encPairs ip c kvs) hc.2 hie (rt_pairs hh hρ hip hsu hlr kvs hc.1 hf hie)
     simpa only [Rep] using this
   | .dict kvs, hc, hf, he => by
     simp only [canon, Bool.and_eq_true] at hc
@@ -748,7 +794,7 @@ theorem rt_val (hip : ip 10 = false) (hsu : mc.cfg.su = c.su) (hlr : mc.listRef 
         have : ¬ (c.proto ≥ 1 ∧ (x :: xs').length = 0) := by simp
         simp only [this, if_false] at he
         exact (seq_err_none (seq_err_none he).1).2
-    have := pushes_dictform (mc := mc) (c := c) kvs (encPairs ip c kvs) hc.2 hie (rt_pairs hip hsu hlr kvs hc.1 hf hie)
+    have := pushes_dictform (mc := mc) (hook := hook) (c := c) hρ kvs (encPairs ip c kvs) hc.2 hie (rt_pairs hh hρ hip hsu hlr kvs hc.1 hf hie)
     simpa only [Rep] using this
   | .call m n args, hc, hf, he => by
     simp only [canon, Bool.and_eq_true, decide_eq_true_eq, Bool.not_eq_true'] at hc
@@ -763,8 +809,8 @@ theorem rt_val (hip : ip 10 = false) (hsu : mc.cfg.su = c.su) (hlr : mc.listRef 
       | cons x xs' => exact encodeTupleOf_err_inv _ _ (by simp) h2
     have hl0 : args.length = 0 → flat (encList ip c args) = [] := by
       intro h; have := List.length_eq_zero_iff.mp h; subst this; simp [encList, flat, Out.nil]
-    have htup := pushes_tupleOf (mc := mc) (c := c) args.length (encList ip c args) (fun h rs => RepList mc h rs args) hie hl0
-      (rt_list hip hsu hlr args hargs hf hie)
+    have htup := pushes_tupleOf (mc := mc) (hook := hook) (c := c) args.length (encList ip c args) (fun h rs => RepList mc ρ h rs args) hie hl0
+      (rt_list hh hρ hip hsu hlr args hargs hf hie)
     refine pushes_reduce m n _ _ _ _ h1 h2 (pushes_class ip hip hsu m n hm hn h1) htup ?_
     intro st rs _ hPL
     refine ⟨.call m n rs, ?_, ?_⟩
@@ -784,17 +830,17 @@ theorem rt_val (hip : ip 10 = false) (hsu : mc.cfg.su = c.su) (hlr : mc.listRef 
         · simp [hlf, failWith] at he
         · have hlf' : containsLF s = false := by simpa using hlf
           simp only [hlf', Bool.false_eq_true, if_false]
-          exact pushes_persid s hlf'
+          exact pushes_persid hh s hlf'
       | _ => simp [failWith] at he
     · simp only [h0, if_false] at he ⊢
       obtain ⟨h1, _⟩ := seq_err_none he
       rw [flat_seq _ _ h1, flat_emit]
-      exact pushes_ref pid _ (rt_val hip hsu hlr pid hc hf h1)
+      exact pushes_ref hh pid _ (rt_val hh hρ hip hsu hlr pid hc hf h1)
   | .uint _, hc, _, _ | .complex _ _, hc, _, _ | .user _, hc, _, _ | .mark, hc, _, _
   | .href _, hc, _, _ | .cycle, hc, _, _ => by simp [canon] at hc
-theorem rt_list (hip : ip 10 = false) (hsu : mc.cfg.su = c.su) (hlr : mc.listRef = false) :
-    (xs : List GoVal) → canonList mc.cfg xs = true → FloatsOK c (floatsOfList xs) → (encList ip c xs).err = none →
-    PushesN mc c (flat (encList ip c xs)) xs.length (fun h rs => RepList mc h rs xs)
+theorem rt_list (hh : HookFor hook ρ) (hρ : rk = true → ∀ p, ρ p = .ref p) (hip : ip 10 = false) (hsu : mc.cfg.su = c.su) (hlr : mc.listRef = false) :
+    (xs : List GoVal) → canonList mc.cfg rk xs = true → FloatsOK c (floatsOfList xs) → (encList ip c xs).err = none →
+    PushesN mc hook c (flat (encList ip c xs)) xs.length (fun h rs => RepList mc ρ h rs xs)
   | [], _, _, _ => by
     simp only [encList, flat, Out.nil, List.flatten_nil, List.length_nil]
     exact Runs.weaken Runs.nil fun st st' _ e => ⟨[], by simp [e], rfl, by simp, by simp [RepList]⟩
@@ -804,7 +850,7 @@ theorem rt_list (hip : ip 10 = false) (hsu : mc.cfg.su = c.su) (hlr : mc.listRef
     simp only [encList] at he ⊢
     obtain ⟨h1, h2⟩ := seq_err_none he
     rw [flat_seq _ _ h1]
-    refine Runs.weaken (Runs.seq (rt_val hip hsu hlr x hc.1 hf.left h1) (rt_list hip hsu hlr xs hc.2 hf.right h2)) ?_
+    refine Runs.weaken (Runs.seq (rt_val hh hρ hip hsu hlr x hc.1 hf.left h1) (rt_list hh hρ hip hsu hlr xs hc.2 hf.right h2)) ?_
     intro st st2 _ ⟨st1, _, f2, ⟨r, hs1, hr⟩, ⟨rs, hs2, hlen, hnm, hPL⟩⟩
     obtain ⟨t, ht⟩ := f2.heap
     refine ⟨r :: rs, by simp [hs2, hs1], by simp [hlen], ?_, ?_⟩
@@ -813,10 +859,10 @@ theorem rt_list (hip : ip 10 = false) (hsu : mc.cfg.su = c.su) (hlr : mc.listRef
       · exact hr.not_mark
       · exact hnm y hy
     · simp only [RepList]
-      exact ⟨by rw [ht]; exact Rep.mono mc _ t r x hr, hPL⟩
-theorem rt_pairs (hip : ip 10 = false) (hsu : mc.cfg.su = c.su) (hlr : mc.listRef = false) :
-    (kvs : List (GoVal × GoVal)) → canonPairs mc.cfg kvs = true → FloatsOK c (floatsOfPairs kvs) → (encPairs ip c kvs).err = none →
-    PushesN mc c (flat (encPairs ip c kvs)) (flatE kvs).length (fun h rs => RepList mc h rs (flatE kvs))
+      exact ⟨by rw [ht]; exact Rep.mono mc ρ _ t r x hr, hPL⟩
+theorem rt_pairs (hh : HookFor hook ρ) (hρ : rk = true → ∀ p, ρ p = .ref p) (hip : ip 10 = false) (hsu : mc.cfg.su = c.su) (hlr : mc.listRef = false) :
+    (kvs : List (GoVal × GoVal)) → canonPairs mc.cfg rk kvs = true → FloatsOK c (floatsOfPairs kvs) → (encPairs ip c kvs).err = none →
+    PushesN mc hook c (flat (encPairs ip c kvs)) (flatE kvs).length (fun h rs => RepList mc ρ h rs (flatE kvs))
   | [], _, _, _ => by
     simp only [encPairs, flat, Out.nil, List.flatten_nil, flatE, List.length_nil]
     exact Runs.weaken Runs.nil fun st st' _ e => ⟨[], by simp [e], rfl, by simp, by simp [RepList]⟩
@@ -827,12 +873,12 @@ theorem rt_pairs (hip : ip 10 = false) (hsu : mc.cfg.su = c.su) (hlr : mc.listRe
     obtain ⟨h12, h3⟩ := seq_err_none he
     obtain ⟨h1, h2⟩ := seq_err_none h12
     rw [flat_seq _ _ h12, flat_seq _ _ h1]
-    refine Runs.weaken (Runs.seq (Runs.seq (rt_val hip hsu hlr k hc.1.1 hf.left.left h1) (rt_val hip hsu hlr v hc.1.2 hf.left.right h2))
-      (rt_pairs hip hsu hlr kvs hc.2 hf.right h3)) ?_
+    refine Runs.weaken (Runs.seq (Runs.seq (rt_val hh hρ hip hsu hlr k hc.1.1 hf.left.left h1) (rt_val hh hρ hip hsu hlr v hc.1.2 hf.left.right h2))
+      (rt_pairs hh hρ hip hsu hlr kvs hc.2 hf.right h3)) ?_
     intro st st3 _ ⟨st2, _, f3, ⟨st1, _, f2, ⟨rk, hs1, hrk⟩, ⟨rv, hs2, hrv⟩⟩, ⟨rs, hs3, hlen, hnm, hPL⟩⟩
     obtain ⟨t2, ht2⟩ := f2.heap
     obtain ⟨t3, ht3⟩ := f3.heap
-    have hrk2 : Rep mc st2.heap rk k := by rw [ht2]; exact Rep.mono mc _ t2 rk k hrk
+    have hrk2 : Rep mc ρ st2.heap rk k := by rw [ht2]; exact Rep.mono mc ρ _ t2 rk k hrk
     refine ⟨rk :: rv :: rs, by simp [hs3, hs2, hs1], by simp [flatE, hlen], ?_, ?_⟩
     · intro y hy
       simp only [List.mem_cons] at hy
@@ -841,7 +887,7 @@ theorem rt_pairs (hip : ip 10 = false) (hsu : mc.cfg.su = c.su) (hlr : mc.listRe
       · exact hrv.not_mark
       · exact hnm y hy
     · simp only [flatE, RepList]
-      exact ⟨by rw [ht3]; exact Rep.mono mc _ t3 rk k hrk2, by rw [ht3]; exact Rep.mono mc _ t3 rv v hrv, hPL⟩
+      exact ⟨by rw [ht3]; exact Rep.mono mc ρ _ t3 rk k hrk2, by rw [ht3]; exact Rep.mono mc ρ _ t3 rv v hrv, hPL⟩
 end
 
 end main
